@@ -413,6 +413,9 @@ func DeserializeNode(data []byte) (Node, error) {
 	if pNode.Branch != nil {
 		branchNode := routingNode{}
 		branchNode.hash = pNode.Branch.Hash
+		if len(pNode.Branch.Children) > branchNodeLength {
+			return nil, errors.New("invalid branch node")
+		}
 		for i, child := range pNode.Branch.Children {
 			if len(child) >= hashWithWeightLength {
 				childHash := child[:32]
@@ -421,6 +424,8 @@ func DeserializeNode(data []byte) (Node, error) {
 				childNodeValue := &hashNode{hash: childHash, weight: childWeight}
 				if len(child) == hashWithWeightLength {
 					branchNode.Children[i] = childNodeValue
+				} else if len(child) < hashWithWeightLength+32 {
+					return nil, errors.New("invalid branch node child")
 				} else {
 					childNodeValue.hash = child[hashWithWeightLength : hashWithWeightLength+32]
 					childKey := child[hashWithWeightLength+32:]
